@@ -84,6 +84,17 @@ Proof.
 Qed.
 Print Assumptions C19_refuted_K10.
 
+(* composition with C02: cumulative minted = floor of the cumulative schedule X, so the integer amount M the blocks between
+   two instants actually mint is floor(X2) - floor(X1); if the emission X2 - X1 is within the bounds of the two theorems
+   above of rate * supply * interval / year, then M (in 10^-18 units) is within one more base unit of it *)
+Theorem C19_minted_amount_matches_rate :
+  forall X1 X2 y S dt, 0 <= X1 <= X2 ->
+  - YEAR < (X2 - X1) * YEAR - y * S * dt < YEAR + (S + 1) * dt ->
+  let M := dec_trunc_int X2 - dec_trunc_int X1 in
+  - (P + 1) * YEAR < M * P * YEAR - y * S * dt < (P + 1) * YEAR + (S + 1) * dt.
+Proof. exact minted_matches_rate. Qed.
+Print Assumptions C19_minted_amount_matches_rate.
+
 (* lowering the running linear period's amount below what the period already minted (a parameter update validation
    accepts) freezes the schedule: every later block mints nothing and leaves the state untouched — also past the
    period's end, so the following periods never start: finding K13 *)
